@@ -3,7 +3,8 @@ select the worklist, marker predicates).  Each is decided *semantically*, not by
 graph is evaluated over a finite abstract domain (truth values of the atoms it tests, variant labels of the enums it matches)
 and the resulting table is compared with the expected one.  `matches!`, `==`, `match`, `if` and `&&` all give the same table.
 Nothing of pyxis is executed: this is an abstract interpretation of the MIR over {true, false} / variant names."""
-import re, json
+import re, json, os
+VERIF = os.path.dirname(os.path.dirname(os.path.abspath(__file__)))
 from mirlib import *
 from guards import *
 
@@ -269,10 +270,93 @@ def text_operations(ctx):
     ctx.ob(['C14', 'C18'], 'R-TABLE', 'text-ops|census', n >= 1500 and len(seen) >= 5, 'call sites examined for text transformations: %d, transforming (layer, method) pairs found: %d (floor 5)' % (n, len(seen)), nontrivial=False)
 
 
+CTOR_PROPS = [
+    (r'function::(FunctionBody|Function|Argument)', ['C07', 'C05', 'C04', 'C16']),
+    (r'type_definition::(Region|TypeDefinition|vftable)', ['C01', 'C04', 'C06', 'C17']),
+    (r'TypeRegistry', ['C02', 'C11', 'C10']),
+    (r'grammar::(ItemPath|ItemPathSegment|Ident)', ['C11', 'C14', 'C18']),
+    (r'ItemDefinition', ['C14', 'C10']),
+    (r'module::Module', ['C14', 'C19']),
+    (r'grammar::', ['C18']),
+]
+
+
+def plain_constructors(P):
+    """id -> rendering of the value a *called* plain constructor of the crate builds from its parameters (no loop, no branch, one
+    exit, result is one of the crate's own types).  The rules read calls of these by name; what they build is checked here."""
+    unc = mirlib_uncalled(P)
+    called = set()
+    for f in P.fns.values():
+        if f.raw.get('derived'):
+            continue
+        for c in f.calls():
+            if c['path'] in P.fns:
+                called.add(c['path'])
+    out = {}
+    for f in P.fns.values():
+        if f.raw.get('derived') or f.kind == 'Closure' or f.id in unc or f.id not in called:
+            continue
+        if not re.match(r'^<?(grammar|semantic)::', f.id) or f.loops() or f.switches() or len(f.exits()) != 1:
+            continue
+        if re.sub(r'<.*$', '', f.raw.get('output', '') or '') not in P.adts:
+            continue
+        e = ('call', f.id, [('arg', i + 1, 'a%d' % (i + 1)) for i in range(f.nargs)], f.id, f.id)
+        try:
+            v = ctor_value(P, e, any_plain=True)
+        except Exception:
+            v = None
+        if v is None:
+            continue
+        if v[0] == 'update':
+            txt = 'update(%s){%s}' % (show(v[1]), ', '.join('%s: %s' % (k_, show(x_)) for k_, x_ in v[2]))
+        else:
+            txt = show(v)
+        if 'closure<' in txt or 'promoted[' in txt:
+            continue        # not a plain aggregate of the parameters (decided by the rules of the function itself)
+        if any(str(a_.get('place', {}).get('ty', '')).startswith('&mut ') for c in f.calls() for a_ in c['term']['args'][:1]):
+            continue        # builds its value by mutation (`let mut p = self.clone(); p.push(x); p`): not read off the exit alone
+        names = set(re.findall(r'([A-Za-z_][\w:]*)\(', txt))
+        if not names <= {'to_string', 'clone', 'Vec::new', 'HashMap::new', 'HashSet::new', 'String::new', 'Into::into', 'from', 'to_owned', 'ItemPath::empty', 'update', 'into'}:
+            continue        # computes something (an iterator chain, a lookup): decided by the rules of the function itself
+        out[f.id] = txt
+    return out
+
+
+def mirlib_uncalled(P):
+    import mirlib
+    return mirlib._uncalled(P)
+
+
+def constructor_shapes(ctx):
+    """the small constructors that the pinned code calls (`FunctionBody::field`, `Region::unnamed_field`, `ItemPath::join`, the `From`
+    impls of the path and identifier types, the `with_*` builders ..) put every parameter into the field it is named after: the
+    value each builds is compared with the reviewed one (spec/ctors.json; a constructor that no longer exists is not an error)"""
+    P = ctx.prog
+    try:
+        with open(os.path.join(VERIF, 'spec', 'ctors.json')) as fh:
+            ref = json.load(fh)['ctors']
+    except Exception as e:
+        ctx.fail_closed(['C14'], 'R-TABLE', 'ctor|reference', 'spec/ctors.json missing or unreadable: %s' % e)
+        return
+    cur = plain_constructors(P)
+    n = 0
+    for fid, want in sorted(ref.items()):
+        if fid not in P.fns:
+            continue
+        n += 1
+        props = next((pr for rx, pr in CTOR_PROPS if re.search(rx, fid)), ['C14'])
+        got = cur.get(fid)
+        ctx.ob(props, 'R-TABLE', 'ctor|%s' % re.sub(r'^semantic::|^grammar::', '', fid), got == want,
+               'the value built by %s is %s%s' % (short(fid), want[:110], '' if got == want else ' — found: %s' % (got[:150] if got else 'not a plain constructor any more')),
+               loc(P.fns[fid].span))
+    ctx.ob(['C14'], 'R-TABLE', 'ctor|census', n >= 12, 'called plain constructors compared with their reviewed value: %d of %d reviewed (floor 12)' % (n, len(ref)), nontrivial=False)
+
+
 def run(ctx):
     P = ctx.prog
     structural_impls(ctx)
     text_operations(ctx)
+    constructor_shapes(ctx)
 
     def one(suffix):
         c = [f for f in P.fns.values() if f.id == suffix or f.id.endswith('::' + suffix)]
